@@ -118,9 +118,64 @@ def trace_fn(state):
     return {"pos": state.pos, "mom": state.mom, "k": int(10 * abs(state.pos[0]))}
 
 
+def metric_diag(q):
+    # position dependent diagonal metric; evaluated inside sample_momentum and inside the steps
+    _hit("metric_func@" + getattr(_TLS, "phase", "integration"))
+    return 1.0 + 0.5 * np.tanh(q) ** 2
+
+
+def vjp_metric_diag(q):
+    def vjp(v):
+        return v * np.tanh(q) * (1.0 - np.tanh(q) ** 2)
+    return vjp
+
+
+class PhaseMomentum:
+    """Wraps a momentum transition so that callbacks know they run inside it."""
+
+    def __init__(self, inner):
+        self.inner = inner
+        self.state_variables = inner.state_variables
+        self.statistic_types = inner.statistic_types
+
+    def sample(self, state, rng):
+        _TLS.phase = "momentum"
+        try:
+            return self.inner.sample(state, rng)
+        finally:
+            _TLS.phase = "integration"
+
+
+def build_generic_riemannian(cfg):
+    import mici
+    from mici.states import ChainState
+
+    rng = np.random.default_rng(777 + cfg["seed"])
+    system = mici.systems.DiagonalRiemannianMetricSystem(
+        nld, metric_diag, grad_neg_log_dens=grad_nld, vjp_metric_diagonal_func=vjp_metric_diag)
+    integ = mici.integrators.ImplicitLeapfrogIntegrator(system, step_size=0.2)
+    transitions = {
+        "tag": TagTransition(),
+        "momentum": PhaseMomentum(mici.transitions.CorrelatedMomentumTransition(system, 0.6)),
+        "integration_transition": mici.transitions.MetropolisStaticIntegrationTransition(
+            system, integ, n_step=1),
+    }
+    sampler = mici.samplers.MarkovChainMonteCarloMethod(rng, transitions)
+    inits = [ChainState(pos=np.array([0.3 * (c + 1), -0.2 + 0.1 * c]),
+                        mom=np.array([0.5, -0.1 * (c + 1)]), dir=1, cid=c)
+             for c in range(cfg["n_chain"])]
+    kw = dict(display_progress=False, trace_funcs=[trace_fn], trace_warm_up=cfg["trace_warm_up"])
+    n_warm = 0 if cfg["stages"] == "single" else 2
+    kw["adapters"] = {}
+    return sampler, inits, n_warm, kw
+
+
 def build(cfg, memdir=None):
     import mici
     from mici.states import ChainState
+
+    if cfg["sampler"] == "generic_riemannian":
+        return build_generic_riemannian(cfg)
 
     rng = np.random.default_rng(777 + cfg["seed"])
     system = mici.systems.EuclideanMetricSystem(nld, grad_neg_log_dens=grad_nld)
@@ -248,7 +303,10 @@ def _run_once(cfg, n_process, target, memdir=None):
         finally:
             logging.disable(logging.NOTSET)
     traces = {k: [np.array(a) for a in v] for k, v in out.traces.items()}
-    stats = {k: [np.array(a) for a in v] for k, v in out.statistics.items()}
+    stats_src = out.statistics
+    if cfg["sampler"] == "generic_riemannian":
+        stats_src = out.statistics["integration_transition"]  # one dict per transition
+    stats = {k: [np.array(a) for a in v] for k, v in stats_src.items()}
     finals = [{k: (np.array(v) if isinstance(v, np.ndarray) else v)
                for k, v in s._variables.items()} for s in out.final_states]  # noqa: SLF001
     files = {}
@@ -422,6 +480,22 @@ def judge(cfg, ref, res, target, mode, acc, viol):
              "final_states[i] belongs to chain i and includes the interrupted chain")
         return "violation"
     by_cid = {int(s["cid"]): s for s in res["finals"]}
+    if str(fn).endswith("@momentum") and cid in by_cid and (cfg["trace_warm_up"]
+                                                            or ref["n_warm"] == 0):
+        # interrupted INSIDE the momentum transition: no transition of the iteration in progress
+        # has completed, so the returned state is exactly (position AND momentum) the state
+        # after the previous iteration - or the initial state
+        if in_progress is not None and in_progress > 0:
+            wantq = ref["traces"]["pos"][cid][in_progress - 1]
+            wantp = ref["traces"]["mom"][cid][in_progress - 1]
+        else:
+            wantq = np.array([0.3 * (cid + 1), -0.2 + 0.1 * cid])
+            wantp = np.array([0.5, -0.1 * (cid + 1)])
+        got = by_cid[cid]
+        if not (np.array_equal(got["pos"], wantq) and np.array_equal(got["mom"], wantp)):
+            viol("final_state_half_updated_by_interrupted_momentum_transition",
+                 [got["pos"], got["mom"]], [wantq, wantp], chain=cid)
+            return "violation"
     if cid in by_cid and in_progress is not None and in_progress < n_rows:
         # position is the traced position of the last completed iteration (or the initial one)
         fin = by_cid[cid]["pos"]
@@ -709,6 +783,13 @@ def configs(tier, seed):
                         if n_chain == 2 and storage == "memory" and twu and \
                                 (not quick or stages != "two"):
                             cfgs.append(dict(base, mode="real", n_process=2))
+    # a generic sampler: correlated momentum refresh + implicit leapfrog on a Riemannian system;
+    # the metric function is user code that runs inside the momentum transition as well
+    for stages in ("single", "two"):
+        for n_chain in (1, 2):
+            cfgs.append({"stages": stages, "storage": "memory", "n_chain": n_chain, "n_main": 2,
+                         "trace_warm_up": True, "sampler": "generic_riemannian", "seed": seed,
+                         "mode": "sequential"})
     for n_chain in (1, 2):
         base = {"stages": "two_none", "storage": "memory", "n_chain": n_chain, "n_main": 2,
                 "trace_warm_up": True, "sampler": "static", "seed": seed}
